@@ -412,6 +412,7 @@ func (s *Server) attachClient(cl *Client, listener string) error {
 	if s.closed { // Close is (or was) waiting for the handlers it knows of: this connection is refused, not served
 		s.closeMu.RUnlock()
 		cl.Stop(packets.ErrServerShuttingDown)
+		verifPoint("attach.end", cl)
 		return ErrConnectionClosed
 	}
 	s.Listeners.ClientsWg.Add(1)
